@@ -44,7 +44,7 @@ var Check = &run.Check{
 		"(called unqualified, this-qualified or class-qualified), other methods without @Test/@Ignore (also @Before/@After/... and annotations whose names merely end in Test / Ignore: @BeforeTest, @AfterTest, @JsonIgnore, @XmlIgnore, on helpers too) carrying the same patterns, and a static method other test classes call; in nested / Maven layouts 3 of 10 trees also hold two test classes of the SAME simple name in different packages, each with a helper of the same name (one asserting, one not) and a test that reaches an assertion only through it; " +
 		"test bodies are assembled from planted evidence in random order, each call recorded with its line: System.out.print/println/printf x0-7, Thread.sleep x0-5, two-argument calls with identical arguments x0-3 (assertions and plain calls; also with arguments longer than 64 characters, identical or differing only near their end), " +
 		"assertion methods of each of the seven documented prefixes (unqualified, receiver, static-qualified, chained, nested in arguments) with multiplicities 1-7 (4/5/6 emphasised), plain calls (also one plain method x5-7), " +
-		"look-alikes (System.err.println, System.out.flush/format, writer.println, timer.sleep, TimeUnit.SECONDS.sleep, Thread.yield), new expressions, 1 file in 5 starts with 1-3 empty / white-space-only lines, commented-out evidence, blocks (if/for/try), two statements on a line, argument lists continued on the next line; " +
+		"method references passed as arguments (Thread::sleep, System.out::println/print, Assert::assertTrue, Assertions::assertNotNull, builder::append; also in helpers and other methods), look-alikes (System.err.println, System.out.flush/format, writer.println, timer.sleep, TimeUnit.SECONDS.sleep, Thread.yield), new expressions, 1 file in 5 starts with 1-3 empty / white-space-only lines, commented-out evidence, blocks (if/for/try), two statements on a line, argument lists continued on the next line; " +
 		"bodies with no call, exactly one call, exactly two calls are drawn deliberately. Observed: TbsApp.AnalysisPath wired as cmd/tbs.go does (the directory mostly as absolute path, in 2 of 7 cases with a trailing separator or as DIR/zzcwd/..); every Nth case the CLI in twelve configurations in turn: the project directory spelled abs, abs --sort, abs-slash, rel, dot-rel, rel-slash, dot, dotdot, sub-dotdot, via-sibling (common.SpellRoot, working directory chosen accordingly), and `-p .` / `-p src/test/java` from the root of a Maven tree that holds a test class without the Test/Tests suffix: coca_reporter/tbs.json, the printed count and table. " +
 		"non-trivial = >= 1 test method with >= 2 different kinds of evidence and >= 1 method or file that must yield nothing; distinct = hash of the tree shape (layout, roles, annotation forms, per-method evidence multiset; no names or literals)",
 	Assumptions: []string{
@@ -52,6 +52,7 @@ var Check = &run.Check{
 		"Line is asserted only where the statement promises one (RedundantPrintTest / SleepyTest: the line on which the call's receiver.name( is written); for the other five kinds only the number of findings per file and type is compared, their Line is used only to name the planted method a surplus or missing finding belongs to",
 		"'an assertion' = a call whose method name starts, case-insensitively, with one of the seven documented prefixes; non-assertion names never start with one",
 		"not generated because the statement leaves it open: bodies whose only calls are `new` expressions; print / sleep / redundant evidence inside a helper that a test calls; helpers calling helpers; one assertion name with two receiver forms or arities in one body; an assertion method that reaches 5 calls only together with helper bodies; annotations after other modifiers; fully-qualified annotation names; System.out.print* / Thread.sleep written over two lines before the method name",
+		"a SleepyTest / RedundantPrintTest at the line of a method reference Thread::sleep / System.out::print* (in a test method or a helper it calls) is neither demanded nor forbidden: the statement speaks of calls; every other finding of such a tree is demanded and the scan must return (a panic is a violation). Assertion references (Assert::assertTrue) are planted only where they cannot change a finding (the body asserts directly and calls no assertion of that name)",
 		"Description of a finding and the order of findings are not asserted",
 	},
 	Cases: cases,
@@ -182,6 +183,9 @@ func runCase(c *run.Ctx, o *run.Outcome) {
 					o.Count("methods_that_must_yield_nothing", 1)
 				}
 				if f.IsTest() {
+					for _, ref := range m.Refs {
+						o.Count("planted_method_references_in_non_test_methods_"+ref.Form, 1)
+					}
 					for _, a := range m.Annos {
 						if strings.HasSuffix(a.Name, "Test") || strings.HasSuffix(a.Name, "Ignore") {
 							o.Count("non_test_methods_annotated_@"+a.Name, 1)
@@ -192,6 +196,9 @@ func runCase(c *run.Ctx, o *run.Outcome) {
 				continue
 			}
 			o.Count("test_methods", 1)
+			for _, ref := range m.Refs {
+				o.Count("planted_method_references_in_test_methods_"+ref.Form, 1)
+			}
 			o.Count("test_methods_annotated_"+m.AnnoClass(), 1)
 			o.Count("test_methods_calls_"+capN(len(m.Calls), 3), 1)
 			o.Seen("annotation_layouts", m.AnnoClass()+"/"+m.AnnoLayout)
@@ -398,6 +405,7 @@ func runCase(c *run.Ctx, o *run.Outcome) {
 
 	ms, st := oracle.TbsCheck(t, observed, relOf)
 	o.Count("findings_matched", st.Matched)
+	o.Count("findings_left_open_at_method_references", st.Open)
 	for typ, n := range st.Observed {
 		o.Count("observed_"+typ, n)
 	}
